@@ -43,6 +43,7 @@ type Program struct {
 	ModSets  map[*types.Func]map[string]bool
 	AddrTaken map[*types.Func]bool
 	fvSet     map[string]bool
+	ReadSets  map[*types.Func]map[string]bool
 	allWritten map[string]bool
 	condEdge  func(callee *types.Func, dk, lk map[string]bool)
 	globals   map[*types.Var]*globalInitInfo
@@ -199,11 +200,16 @@ func LoadProgram(repo, mirror string) (*Program, error) {
 		if p == nil {
 			continue
 		}
-		if obj, ok := p.Types.Scope().Lookup(pr.Name).(*types.Func); ok {
+		pname := pr.Name
+		if i := strings.Index(pname, "["); i >= 0 {
+			pname = pname[:i]
+		}
+		if obj, ok := p.Types.Scope().Lookup(pname).(*types.Func); ok {
 			prog.PredByFn[obj] = pr
 		}
 	}
 	prog.computeModSets()
+	prog.computeReadSets()
 	// the go/types package object (for dynamic type tags of external types)
 	for _, p := range pkgs2 {
 		for path, imp := range p.Imports {
